@@ -180,11 +180,43 @@ func ruleR7_1(r *Run) {
 	if f == nil {
 		return
 	}
-	if !newVersionIntact(r, f) {
+	// the branch checks may live in a validating helper (r.availableChildBranch(node, name) (string, error)): the
+	// scans are then looked for there, and newVersion has to act on the helper's error before it inserts
+	scanFn := f
+	hcall, hfn := branchCheckHelper(f)
+	if hcall != nil {
+		scanFn = hfn
+		var errV ssa.Value
+		for _, ref := range *hcall.Referrers() {
+			if ex, ok := ref.(*ssa.Extract); ok && isErrorType(ex.Type()) {
+				errV = ex
+			}
+		}
+		acted := false
+		if errV != nil {
+			s2 := runSCCP(f, &AEnv{Atom: func(v ssa.Value) (AVal, bool) {
+				if bo, ok := v.(*ssa.BinOp); ok && (bo.Op == token.NEQ || bo.Op == token.EQL) {
+					for _, pr := range [][2]ssa.Value{{bo.X, bo.Y}, {bo.Y, bo.X}} {
+						if isNilConst(pr[1]) && sameErrValue(pr[0], errV) {
+							return aBool(bo.Op == token.NEQ), true
+						}
+					}
+				}
+				return unknown, false
+			}})
+			isInsert := func(x ssa.Instruction) bool {
+				mu, ok := x.(*ssa.MapUpdate)
+				return ok && isFieldLoad(mu.Map, "dagT", "nodes")
+			}
+			acted = findPath(f, hcall, nil, isInsert, s2.EdgeFeasible) == nil
+		}
+		r.check(acted, "repoManager.newVersion:refusal-of-the-branch-check-is-obeyed", "with the validating helper's error non-nil no insertion into the DAG is reachable",
+			"newVersion can insert the child although the branch check refused it", w.pos(hcall.Pos()))
+	} else if !newVersionIntact(r, f) {
 		return
 	}
 	var branchParam *ssa.Parameter
-	for _, p := range f.Params {
+	for _, p := range scanFn.Params {
 		if p.Name() == "branchname" || (isStringType(p.Type()) && branchParam == nil && p.Name() != "note") {
 			if p.Name() == "branchname" {
 				branchParam = p
@@ -194,7 +226,7 @@ func ruleR7_1(r *Run) {
 	if branchParam == nil {
 		// second string parameter by position (note, branchname)
 		var strs []*ssa.Parameter
-		for _, p := range f.Params {
+		for _, p := range scanFn.Params {
 			if isStringType(p.Type()) {
 				strs = append(strs, p)
 			}
@@ -202,9 +234,12 @@ func ruleR7_1(r *Run) {
 		if len(strs) >= 2 {
 			branchParam = strs[1]
 		}
+		if hcall != nil && len(strs) == 1 {
+			branchParam = strs[0]
+		}
 	}
 	scanAll, scanSisters := false, false
-	for _, b := range f.Blocks {
+	for _, b := range scanFn.Blocks {
 		ifi, ok := b.Instrs[len(b.Instrs)-1].(*ssa.If)
 		if !ok {
 			continue
@@ -220,7 +255,7 @@ func ruleR7_1(r *Run) {
 			// the node compared comes from iterating dagT.nodes (Next on a Range of it) or a lookup of a child id
 			node := pr[0].(*ssa.UnOp).X.(*ssa.FieldAddr).X
 			fromRange, fromLookup := false, false
-			for _, rv := range roots(node, f) {
+			for _, rv := range roots(node, scanFn) {
 				if ex, ok := rv.V.(*ssa.Extract); ok {
 					if nx, ok := ex.Tuple.(*ssa.Next); ok {
 						if rg, ok := nx.Iter.(*ssa.Range); ok && isFieldLoad(rg.X, "dagT", "nodes") {
@@ -264,7 +299,7 @@ func ruleR7_1(r *Run) {
 	// equally complete since 39e2dcd: the branch-head index (repoT.branchHeads() has one entry per branch in
 	// use: its last node; the live cache branchToUUID follows every change of the DAG's shape, R3.13).  A
 	// membership test of the requested name in either, whose "found" edge is an error exit, decides the same.
-	for _, b := range f.Blocks {
+	for _, b := range scanFn.Blocks {
 		ifi, ok := b.Instrs[len(b.Instrs)-1].(*ssa.If)
 		if !ok {
 			continue
